@@ -3,7 +3,16 @@ import TmVerif.Model.LRCheck
 namespace TmVerif.DriverC05
 open TmVerif.Proto TmVerif.LR TmVerif.LRCheck
 
-/-- `opt <tables with opt> <defaultReduce>` → `ok` or the first differing cell. -/
+/-- the decidable side conditions of the run-level theorems (`C05_runs_equal…`): every real table
+must satisfy them, otherwise the theorems would not apply to it -/
+def sideFailure (t : Tables) : Option String :=
+  if !tablesWf t then some "tablesWf"
+  else if !noBlindShift t then some "noBlindShift"
+  else if !gotoClosed t (mkPreds t) then some "gotoClosed"
+  else none
+
+/-- `opt <tables with opt> <defaultReduce>` → `ok` or the first differing cell (or the side
+condition of the run-level theorems that the tables violate). -/
 def handle (args : List String) : Option String :=
   match args with
   | "opt" :: rest => do
@@ -11,7 +20,10 @@ def handle (args : List String) : Option String :=
     match rest with
     | [dr] =>
       let dr ← parseBool? dr
-      if checkOptimized t dr then some "ok"
+      if checkOptimized t dr then
+        match sideFailure t with
+        | none => some "ok"
+        | some w => some s!"hypothesis-fails {w}"
       else some s!"mismatch {(firstBadCell t dr).getD "?"}"
     | _ => none
   | "judge" :: _ :: "::" :: "opt" :: rest => do
